@@ -11,6 +11,7 @@ import Ogen.ValidateModel_proof
 import Ogen.OptNilStates_proof
 import Ogen.HandlerStages_proof
 import Ogen.Exchange_proof
+import Ogen.RefCache_proof
 
 /-! Line-protocol driver over all executable models: `<model> <payload>` per line, one
     canonical output line per input line. Core-only (no Mathlib) so it links natively. -/
@@ -51,6 +52,7 @@ def dispatch (line : String) : String :=
     | "optnil" => OptNil.optnilLine payload
     | "stage" => Stages.stageLine payload
     | "rsel" => Exchange.rselLine payload
+    | "refs" => RefChain.refsLine payload
     | "jeq" => JEqDrv.runLine payload
     | "enum" => JEqDrv.enumLine payload
     | _ => "bad-model"
